@@ -32,5 +32,34 @@ VF u32_t vf_iob_total(iobuffer *b) { return b->total; }
 VF u32_t vf_iob_now(iobuffer *b) { return b->now; }
 VF u32_t vf_iob_isfinal(iobuffer *b) { return b->isfinal; }
 VF u32_t vf_iob_block_off(void) { return (u32_t)offsetof(iobuffer, b); }
+// ---- leaves, for the refinement obligations (L1)
+VF bufferctrl *vf_ctrl_new(void) { return new bufferctrl; }
+VF void vf_ctrl_set_update(bufferctrl *c) { c->set_update(); }
+VF void vf_ctrl_set_ready(bufferctrl *c, int load) { c->set_ready(load != 0); }
+VF void vf_ctrl_wait_ready(bufferctrl *c) { c->wait_ready(); }
+VF void vf_ctrl_wait_update(bufferctrl *c) { c->wait_update(); }
+VF int vf_ctrl_cmpstate(bufferctrl *c, u32_t s) { return c->cmpstate((bufstate_t)s); }
+VF int vf_haslive(void) { return bufferctrl::haslive(); }
+VF u32_t vf_ctrl_state(bufferctrl *c) { return (u32_t)c->state; }
+VF void vf_ctrl_set_state(bufferctrl *c, u32_t s) { c->state = (bufstate_t)s; }
+VF u8_t *vf_ctrl_state_addr(bufferctrl *c) { return (u8_t *)&c->state; }
+VF u8_t *vf_ctrl_mutex(bufferctrl *c) { return (u8_t *)c->lock.native_handle(); }
+VF u8_t *vf_ctrl_cv_ready(bufferctrl *c) { return (u8_t *)&c->cv_ready; }
+VF u8_t *vf_ctrl_cv_update(bufferctrl *c) { return (u8_t *)&c->cv_update; }
+VF u8_t vf_live_get(void) { return bufferctrl::live_num; }
+VF void vf_live_set(u8_t v) { bufferctrl::live_num = v; }
+VF u8_t *vf_live_addr(void) { return &bufferctrl::live_num; }
+VF iobuffer *vf_iob_new(void) { return new iobuffer; }
+VF u8_t *vf_iob_get_entry(iobuffer *b) { return b->get_entry(); }
+VF u8_t *vf_iob_block(iobuffer *b, u32_t i) { return b->b[i]; }
+// ---- skeletons, for the refinement obligations (L2)
+VF u8_t *vf_req(u8_t id) { return buffergroup::get_instance()->require_buffer_entry(id); }
+VF void vf_bg_buffer_update(void) { buffergroup::get_instance()->buffer_update([](std::string, size_t) -> void {}); }
+VF int vf_bg_turn_iter(void) { return buffergroup::get_instance()->turn_iter(); }
+VF void vf_bg_set_turn(u32_t t) { buffergroup::get_instance()->turn = t; }
+VF void vf_bg_set_over(int o) { buffergroup::get_instance()->over = o != 0; }
+VF int vf_bg_over(void) { return buffergroup::get_instance()->over; }
+VF u8_t *vf_bg_ctrl(void) { return (u8_t *)buffergroup::get_instance()->ctrl; }
+VF u32_t vf_ctrl_size(void) { return sizeof(bufferctrl); }
 // run_multicry itself: thread creation / join order is decided by a sequential obligation with recording stubs
 VF void vf_run_multicry(u8_t threads, Aesmode **modes) { multicry_master m(threads); m.run_multicry(modes, [](std::string, size_t) -> void {}); }
